@@ -609,12 +609,23 @@ class _encode_spo_free:
         E, O = e.term_encoder, e.old.term_encoder
         rep_new, rep_old = e.repeated_terms.items, e.old.repeated_terms.items
         from pyvc.spec import eq as _eq
-        return {"tables-still-well-formed": wf_te(E),
-                # C20: a rejected statement must leave no trace in what later statements are encoded against
-                # (known finding D6: it does when an earlier slot was already encoded)
-                "rejected-statement-leaves-no-trace": And(
-                    enc_unchanged(E.names, O.names), enc_unchanged(E.prefixes, O.prefixes),
-                    enc_unchanged(E.datatypes, O.datatypes), *[_eq(a, b) for a, b in zip(rep_new, rep_old)])}
+        out = {"tables-still-well-formed": wf_te(E),
+               # C20: a rejected statement must leave no trace in what later statements are encoded against
+               # (known finding D6: it does when an earlier slot was already encoded)
+               "rejected-statement-leaves-no-trace": And(
+                   enc_unchanged(E.names, O.names), enc_unchanged(E.prefixes, O.prefixes),
+                   enc_unchanged(E.datatypes, O.datatypes), *[_eq(a, b) for a, b in zip(rep_new, rep_old)])}
+        # what does hold today, and must keep holding: the rejected term itself (and every slot after it) is NOT remembered -
+        # otherwise an equal term in the next statement would be elided against a term the reader never saw
+        ts = list(e.old.terms.items)[:3]
+        dz = O.datatypes.lookup.max_size == 0
+        passed: Any = True
+        for j in SLOTS3:
+            el = rep_equal(rep_old[j], ts[j])
+            here = And(passed, Not(el), exc_of(ts[j], dz) != 0)
+            out[f"term-rejected-in-slot-{j}-is-not-remembered"] = Implies(here, And(*[_eq(rep_new[k], rep_old[k]) for k in range(j, 4)]))
+            passed = And(passed, Or(el, exc_of(ts[j], dz) == 0))
+        return out
 
     def ensures(e):
         E, O = e.term_encoder, e.old.term_encoder
